@@ -27,7 +27,7 @@ ASSUMPTIONS = ["a re-registration on the same token starts a new registration (i
                "registrations still alive, on what the server transmitted (not on what the lossy network delivered)"]
 EXPECTED_PROBES = ["change_during_render", "coalesced_burst", "change_while_in_flight", "end_by_rst", "end_by_new_request", "end_by_deregister",
                    "end_by_timeout", "end_by_icmp", "end_by_senderr", "end_by_error_notification", "end_by_last_notification", "end_by_shutdown",
-                   "non_registration", "several_observers", "rst_on_non_notification", "observers_share_a_host", "sendmsg_failed"]
+                   "non_registration", "several_observers", "rst_on_non_notification", "observers_share_a_host", "sendmsg_failed", "end_event_during_render", "explicit_notification"]
 
 REACTIONS = ["ack", "ack", "ack", "rst", "silent", "rereg", "dereg"]
 
@@ -43,6 +43,9 @@ def gen(r, tier):
     for _ in range(r.randint(2, 14)):
         t += r.choice([0.0, 0.001, 0.01, 0.1, 1.0, 3.0, 10.0])
         ops.append({"op": "change", "t": round(t, 4), "n": r.choice([1, 1, 2, 3])})
+        if r.chance(0.15):
+            # the application hands the notification over itself (ObservableResource.updated_state(response))
+            ops[-1]["explicit"] = True
     if r.chance(0.15):
         ops.append({"op": r.choice(["error_notify", "last_notify"]), "t": round(r.uniform(1.5, t + 1), 4)})
     if r.chance(0.15):
@@ -54,10 +57,23 @@ def gen(r, tier):
                     "n": r.choice([1, 1, 2]), "errno": r.choice([101, 113, 1])})
     if r.chance(0.1):
         ops.append({"op": "shutdown", "t": round(r.uniform(1.5, t + 1), 4)})
+    if r.chance(0.25):
+        # an end event while the registration's FIRST render is still in progress: the observer sends another request
+        # on the token (or an error is reported for it) a moment after its registration request
+        o = r.choice(observers)
+        dt = r.choice([0.0051, 0.006, 0.008, 0.02, 0.04])
+        k = r.choice(["reg0", "reg1", "icmp", "senderr"])
+        if k.startswith("reg"):
+            ops.append({"op": "reg", "t": round(o["t"] + dt, 4), "observer": o["id"], "observe": int(k[3])})
+        elif k == "icmp":
+            ops.append({"op": "icmp", "t": round(o["t"] + dt, 4), "observer": o["id"]})
+        else:
+            ops.append({"op": "senderr", "t": round(o["t"] + dt, 4), "observer": o["id"], "n": 1, "errno": 101})
     ops.sort(key=lambda o: o["t"])
     # rendering may take time (the resource reads its state, then awaits something): changes can land DURING a render
+    early = any(o["t"] < 1.5 and o["op"] in ("reg", "icmp", "senderr") for o in ops)
     return {"observers": observers, "ops": ops, "net": faults.swarm(r, kinds=("drop", "dup", "delay"), fault_free=0.35),
-            "render_delay": r.choice([0, 0, 0.0005, 0.005, 0.05]), "same_host": r.chance(0.3)}
+            "render_delay": r.choice([0.05, 0.05, 0.005]) if early else r.choice([0, 0, 0.0005, 0.005, 0.05]), "same_host": r.chance(0.3)}
 
 
 def systematic(tier):
@@ -72,6 +88,14 @@ def systematic(tier):
                     out.append({"observers": [{"id": 0, "con": con, "t": 0.1, "reactions": reactions},
                                               {"id": 1, "con": True, "t": 0.2, "reactions": ["ack"] * 12}],
                                 "ops": ops, "net": {}, "render_delay": 0.0005 if (pos + int(gap * 10)) % 2 else 0})
+    for kind, extra in (("reg", {"observe": 0}), ("reg", {"observe": 1}), ("icmp", {}), ("senderr", {"n": 1, "errno": 101}),
+                        ("shutdown", {})):
+        for dt in (0.006, 0.02, 0.045):
+            op = dict({"op": kind, "t": round(0.1 + dt, 4), "observer": 0}, **extra)
+            out.append({"observers": [{"id": 0, "con": True, "t": 0.1, "reactions": ["ack"] * 12},
+                                      {"id": 1, "con": False, "t": 0.5, "reactions": ["ack"] * 12}],
+                        "ops": sorted([op, {"op": "change", "t": 2.0, "n": 1}, {"op": "change", "t": 4.0, "n": 2}],
+                                      key=lambda o: o["t"]), "net": {}, "render_delay": 0.05})
     for kind in ("error_notify", "last_notify", "icmp", "shutdown", "senderr"):
         for tt in (2.0005, 2.5, 9.0):
             ops = [{"op": "change", "t": 2.0, "n": 2}, {"op": "change", "t": 4.0, "n": 1}, {"op": "change", "t": 12.0, "n": 1}]
@@ -232,6 +256,14 @@ def execute(sim, scn):
                 await asyncio.sleep(scn["render_delay"])  # the state was read before: a change may land meanwhile
             return Message(payload=b"s=%d;r=%d" % (state, serial))
 
+        def change_explicit(self):
+            """the resource renders the new state itself and passes the message on for all observers"""
+            self.state += 1
+            self.changes.append(loop.now)
+            renders.append({"pos": len(sim.events), "t": loop.now, "remote": None, "token": None, "state": self.state})
+            sim.log("app", "render-explicit", len(renders) - 1, self.state)
+            self.updated_state(Message(code=aiocoap.CONTENT, payload=b"s=%d;r=%d" % (self.state, len(renders) - 1)))
+
         def change(self):
             self.state += 1
             self.changes.append(loop.now)
@@ -266,7 +298,11 @@ def execute(sim, scn):
 
     def do(op):
         k = op["op"]
-        if k == "change":
+        if k == "change" and op.get("explicit"):
+            sim.probe("explicit_notification")
+            for _ in range(op["n"]):
+                counter.change_explicit()
+        elif k == "change":
             for _ in range(op["n"]):
                 counter.change()
             if op["n"] > 1:
@@ -285,6 +321,11 @@ def execute(sim, scn):
         elif k == "senderr":
             if op["observer"] in observers:
                 armed[observers[op["observer"]].addr] = [op["n"], op["errno"]]
+        elif k == "reg":
+            if op["observer"] in observers:
+                if renders and scn.get("render_delay") and loop.now - renders[-1]["t"] < scn["render_delay"]:
+                    sim.probe("end_event_during_render")
+                observers[op["observer"]].register(op["observe"])
         elif k == "shutdown":
             global_ends.append((loop.now, "shutdown", None))
 
@@ -444,6 +485,8 @@ def execute(sim, scn):
             for (t, kind, who) in global_ends:
                 if who is not None and who != oid:
                     continue
+                if kind == "icmp" and abs(t - t0) <= TOL:
+                    continue  # reported in the very instant the registration was made: either order is possible
                 if t0 - TOL <= t < t1 + TOL:
                     ends.append((t, kind))
             for e in sent_all:
